@@ -105,6 +105,16 @@ CHECKS["C18"] = dict(
     note="trusted: rule behaviour interpreter harness/src/rules.rs, renderer, projection, TLC; history depth and alphabets bounded; lines contain at most one occurrence of a registered pattern",
     ref="7 C18")
 
+CHECKS["C07"] = dict(
+    technique="TLA+ spec (NumFormat.tla on exact decimal expansions) model-checked by TLC; recorded (value, format setting, printed characters) traces of the real library validated by TLC (Trace.tla 'format' events bound to the calculator's format state)",
+    text="TLC model-checks on NumFormat.tla that every admissible output is well formed and grouped exactly every third digit on 28,672 shape x setting pairs, and enumerates decimal shapes "
+         "(integer parts on the grouping boundaries x all fraction patterns over {0,4,5,9} x sign). Each shape is written as a number / percentage / money / unit literal under settings from "
+         "digits x removal x rounding x 4 separator pairs; the exact decimal expansion of the double the calculator holds and the printed characters form a trace that TLC validates against the "
+         "set of correctly rounded, grouped and signed outputs. Random doubles likewise. The binding is impl -> spec only (a decimal shape is not a double).",
+    note="trusted: Rust's exact float formatting for the expansion, Python repr for shortest digits, TLC; exact ties accept both neighbours; '-0' for a negative value rounding to zero accepted; "
+         "with rounding off only 'all shortest digits or none (removal on)' is required",
+    ref="7 C07")
+
 NOT_YET = {
 }
 
